@@ -351,3 +351,8 @@ def independence(si: int, pk: int, as_dict: bool, same_cursor: bool) -> bool:
     from vf import fast as _f
 
     return done(_f.native(_indep.independent, _f.pick(si, len(_indep.SUBJECTS)), _IND_PRIORS[_f.pick(pk, len(_IND_PRIORS))], bool(_f.pick(as_dict, 2)), bool(_f.pick(same_cursor, 2))))
+
+import obligations.C15  # noqa: E402,F401
+from vf.registry import alias  # noqa: E402
+
+alias("C07.undefined_variable_is_a_snowflake_error", "C15.undefined_reference_raises", "a reference to an undefined session variable in any letter case is a ProgrammingError raised before the engine sees the statement (never an engine-specific exception), and the statement changes nothing")
